@@ -49,7 +49,21 @@ def run(ck):
                     if items is None or len(items) != len(nets):
                         continue
                     gcalls = [c for c in p.calls if c[0] == "NeuralStateBase.gradient"]
-                    ck.check(len(gcalls) == 1, "C06.R1", inst + ":positive phase computed once", msite, "gradient() of the data batch is evaluated %d times" % len(gcalls))
+                    eg_all = [c for c in p.calls if c[0].endswith(".effective_energy_gradient")]
+                    gs_all = [c for c in p.calls if c[0].endswith(".gibbs_steps")]
+                    restated = None
+                    if not gcalls and not with_bases and len(gs_all) == 1 and len(eg_all) == 2:
+                        # without bases the positive phase is the summed energy gradient of the data batch: a subclass may restate it
+                        # instead of calling gradient().  Then: one energy gradient on the data batch, one on the chain end.
+                        vk_ = gs_all[0][4]
+                        pos_ = [c for c in eg_all if isinstance(c[5].get("v"), VTens) and c[5]["v"].obj is S.obj]
+                        neg_ = [c for c in eg_all if isinstance(c[5].get("v"), VTens) and isinstance(vk_, VTens) and c[5]["v"].obj is vk_.obj]
+                        if len(pos_) == 1 and len(neg_) == 1 and pos_[0][6] is not None:
+                            restated = (pos_[0], neg_[0])
+                    if restated is None:
+                        ck.check(len(gcalls) == 1, "C06.R1", inst + ":positive phase computed once", msite, "gradient() of the data batch is evaluated %d times" % len(gcalls))
+                    else:
+                        ck.ok("C06.R1", inst + ":positive phase computed once (restated as the energy gradient of the data batch)", msite)
                     if len(gcalls) == 1:
                         env = gcalls[0][5]
                         sb = env.get("samples")
@@ -61,6 +75,8 @@ def run(ck):
                             ck.check(isinstance(bb, VConst) and bb.value is None, "C06.R1", inst + ":no bases", msite, "a bases argument appears although none was given")
                     gs = [c for c in p.calls if c[0].endswith(".gibbs_steps")]
                     eg = [c for c in p.calls if c[0].endswith(".effective_energy_gradient")]
+                    if restated is not None:
+                        eg = [restated[1]]
                     ck.check(len(gs) == 1 and len(eg) == 1, "C06.R1", inst + ":one negative chain evaluation", msite, "gibbs_steps / effective_energy_gradient called %d / %d times" % (len(gs), len(eg)))
                     if len(gs) != 1 or len(eg) != 1:
                         continue
@@ -79,7 +95,7 @@ def run(ck):
                     red = eg[0][5].get("reduce")
                     ck.check(isinstance(red, VConst) and red.value is True, "C06.R1", inst + ":summed model gradient", msite, "the model gradient is not the batch sum")
                     gm = eg[0][6]
-                    P0 = T.sym("g_rbm_am") * T.inv(T.sym("Bs"))
+                    P0 = (T.sym("g_rbm_am") if restated is None else restated[0][6]) * T.inv(T.sym("Bs"))
                     want0 = P0 - gm * T.inv(T.sym("Bn")) if gm is not None else None
                     got0 = items[0].term
                     if want0 is None or got0 is None:
